@@ -87,6 +87,6 @@ Example ex_methods : let fs := ["_1"; "hash"; "_0"; "any"]%string in
   run_eq Z Z.eqb (generate_eq Z fs) a b = Ok false /\ run_eq Z Z.eqb (generate_eq Z fs) a a = Ok true /\
   run_bool Z zt (generate_bool Z fs) a = Ok true /\ run_bool Z zt (generate_bool Z fs) (mkInst 1 [("_1", 0); ("hash", 0); ("_0", 0); ("any", 0)]%string%Z) = Ok false /\
   run_init Z (generate_init Z [("x", 0); ("c", 5)]%string%Z) [None; Some 9%Z] = Ok [("x", 0); ("c", 9)]%string%Z /\
-  (do args <- bind_args Z (generate_init Z [("x", 0); ("c", 5)]%string%Z) [Some (Some 3%Z)] [("c"%string, None)]; run_init Z (generate_init Z [("x", 0); ("c", 5)]%string%Z) args)
+  (do args <- bind_args Z (generate_init Z [("x", 0); ("c", 5)]%string%Z) [Some 3%Z] [("c"%string, None)]; run_init Z (generate_init Z [("x", 0); ("c", 5)]%string%Z) args)
     = Ok [("x", 3); ("c", 5)]%string%Z.
 Proof. vm_compute. repeat split; reflexivity. Qed.
